@@ -119,7 +119,7 @@ fn check_spec(ctx: &Ctx, s: &Spec, acc: &mut Acc) -> Option<Model> {
                 Some(got) => {
                     let d = set_distance(&exp, &got);
                     if d > tol(&exp) {
-                        ctx.violation(&format!("geometry:shade:{}", ["", "rectangle", "vertices-vertical", "vertices-45", "vertices-horizontal"][s.shade]), &format!("shade corners off by {:.3} m (expected {:?}, converted {:?})", d, exp, got), case());
+                        ctx.violation(&format!("geometry:shade:{}", ["", "rectangle", "vertices-vertical", "vertices-45", "vertices-horizontal", "rectangle-facing-down", "rectangle-facing-up", "rectangle-sloped"][s.shade]), &format!("shade corners off by {:.3} m (expected {:?}, converted {:?})", d, exp, got), case());
                     }
                 }
                 None => ctx.violation("geometry:shade-no-position", "shade without position", case()),
